@@ -165,9 +165,16 @@ def r23(chk, m, rule_id='R2.3'):
     for label, opt in (('no optional argument', None), ('empty default', []), ('non-empty default', [T('d', CC_LETTER)])):
         h = NCHooks(m, NewCommand)
         h.should_inline = A.private_only
-        it = A.Interp(model=m, scope=fn, hooks=h, max_iter=4, exc_edges=False, inline=2)
-        outs = it.run_function(fn, env={'self.opt': opt, 'self.nargs': 3, 'self.macroMode': m.class_const(Macro, 'MODE_NONE'),
-                                        'self.definition': []})
+        it = A.Interp(model=m, scope=fn, hooks=h, max_iter=6, exc_edges=False, inline=3, heap=True, precise_exc=True)
+        # `tex` is a scripted object: its readArgument is answered by the hooks however the call is spelled (directly, through a list
+        # of readers, through functools.partial)
+        tex = A.Obj('tex', {'readArgument': A.Sym('extfunc:tex.readArgument', truthy=True)})
+        try:
+            outs = it.run_function(fn, env={'self.opt': opt, 'self.nargs': 3, 'self.macroMode': m.class_const(Macro, 'MODE_NONE'),
+                                            'self.definition': [], 'tex': tex})
+        except AnalysisError as e:
+            chk.undecided(R, 'NewCommand.invoke: %s' % label, '%s (%s)' % (e, '; '.join(sorted(set(list(it.imprecise) + list(it.unknown_branches)))[:4])), chk.where(fn))
+            continue
         chk.paths += len(outs)
         res = set()
         for kind, s, v in outs:
@@ -184,9 +191,12 @@ def r23(chk, m, rule_id='R2.3'):
         else:
             want = {((('[]', True, '#1'), ('None', False, '#2'), ('None', False, '#3')), 4)}
         got = {(tuple((str(a), b, c) for a, b, c in r), n) for r, n in res}
-        chk.verdict(R, 'NewCommand.invoke: %s' % label, got == want,
-                    'with nargs=3 and %s the reads (delimiters, default given, name) and the length of the parameter list are %s; '
-                    'expected %s' % (label, sorted(got), sorted(want)), chk.where(fn), str(sorted(got)))
+        if it.imprecise or it.unknown_branches:
+            chk.undecided(R, 'NewCommand.invoke: %s' % label, '; '.join(sorted(set(list(it.imprecise) + list(it.unknown_branches)))[:3]), chk.where(fn))
+            continue
+        chk.decide(R, 'NewCommand.invoke: %s' % label, {repr(g) for g in got}, {repr(w) for w in want},
+                   'with nargs=3 and %s the reads (delimiters, default given, name) and the length of the parameter list are %s; '
+                   'expected %s' % (label, sorted(got), sorted(want)), chk.where(fn), str(sorted(got)))
 
 
 def r25(chk, m):
